@@ -1,10 +1,10 @@
 //! Evaluates a [`crate::circuit::Circuit`] with inputs supplied by different parties.
 
-use std::{collections::HashMap, fmt::Debug};
+use std::{borrow::Cow, collections::HashMap, fmt::Debug};
 
 use crate::{
     CircuitType, CompileTimeError, TypedFnDef, TypedProgram,
-    ast::Type,
+    ast::{Type, Variant},
     circuit::{EvalPanic, USIZE_BITS},
     compile::{resolve_const_expr_usize, signed_to_bits, unsigned_to_bits},
     literal::Literal,
@@ -192,7 +192,7 @@ impl<'a> Evaluator<'a> {
         if self.inputs.len() < self.main_fn.params.len() {
             let ty = &self.main_fn.params[self.inputs.len()].ty;
             let ty = resolve_const_type(ty, self.const_sizes);
-            if literal.is_of_type(self.program, &ty) {
+            if literal.is_of_type(&resolve_const_defs(self.program, self.const_sizes), &ty) {
                 self.inputs.push(vec![]);
                 self.inputs
                     .last_mut()
@@ -216,13 +216,59 @@ impl<'a> Evaluator<'a> {
             let ty = &self.main_fn.params[self.inputs.len()].ty;
             let ty = resolve_const_type(ty, self.const_sizes);
             let parsed =
-                Literal::parse(self.program, &ty, literal).map_err(EvalError::LiteralParseError)?;
+                Literal::parse(&resolve_const_defs(self.program, self.const_sizes), &ty, literal)
+                    .map_err(EvalError::LiteralParseError)?;
             self.set_literal(parsed)?;
             Ok(())
         } else {
             Err(EvalError::UnexpectedNumberOfParties)
         }
     }
+}
+
+/// The program with the const-sized array types inside its struct and enum definitions resolved,
+/// so that literals of such structs / enums can be type-checked (the program itself is returned if
+/// no definition depends on a const).
+pub(crate) fn resolve_const_defs<'a>(
+    program: &'a TypedProgram,
+    const_sizes: &HashMap<String, usize>,
+) -> Cow<'a, TypedProgram> {
+    fn is_const_sized(ty: &Type) -> bool {
+        match ty {
+            Type::ArrayConst(_, _) | Type::ArrayConstExpr(_, _) => true,
+            Type::Array(elem_ty, _) => is_const_sized(elem_ty),
+            Type::Tuple(elems) => elems.iter().any(is_const_sized),
+            _ => false,
+        }
+    }
+    let in_structs = program
+        .struct_defs
+        .values()
+        .any(|def| def.fields.iter().any(|(_, ty)| is_const_sized(ty)));
+    let in_enums = program.enum_defs.values().any(|def| {
+        def.variants
+            .iter()
+            .any(|variant| variant.types().is_some_and(|tys| tys.iter().any(is_const_sized)))
+    });
+    if !in_structs && !in_enums {
+        return Cow::Borrowed(program);
+    }
+    let mut program = program.clone();
+    for def in program.struct_defs.values_mut() {
+        for (_, ty) in def.fields.iter_mut() {
+            *ty = resolve_const_type(ty, const_sizes);
+        }
+    }
+    for def in program.enum_defs.values_mut() {
+        for variant in def.variants.iter_mut() {
+            if let Variant::Tuple(_, tys) = variant {
+                for ty in tys.iter_mut() {
+                    *ty = resolve_const_type(ty, const_sizes);
+                }
+            }
+        }
+    }
+    Cow::Owned(program)
 }
 
 pub(crate) fn resolve_const_type(ty: &Type, const_sizes: &HashMap<String, usize>) -> Type {
